@@ -147,3 +147,11 @@ def _run_shard(spec):
 
 CHECK.plan = _plan
 CHECK.run_shard = _run_shard
+
+
+# repeated-stage histories (the branch stage / the whole pipeline a second time
+# on the same object): this property's oracle reads the result alone and holds
+# there on the unchanged tree (the reference-model and hierarchy oracles do
+# not: a structure that is restructured again is outside their domain)
+CHECK.repeat_histories = True
+CHECK.repeat_oracles = {"C17"}
